@@ -279,6 +279,36 @@ def backend_shard(spec, res, rng):
     from vf.ref import sigamma as G
 
     be = claripy.backends.vsa
+    # join / meet / widen written as expressions (claripy.union, ...), also between a value and its own byte-reversed or
+    # shifted copy: the result must contain the members of both operands
+    from vf.props import c23
+
+    for i in range(max(40, spec["n"] // 4)):
+        w = rng.choice([16, 16, 32])
+        t = rand_si(rng, w)
+        while G.count(t) > 40:
+            t = rand_si(rng, w)
+        bits, stride, lb, ub, _, _ = t
+        x = claripy.SI(bits=bits, stride=stride, lower_bound=lb, upper_bound=ub, name=f"u{i}")
+        t2 = rand_si(rng, w)
+        while G.count(t2) > 40:
+            t2 = rand_si(rng, w)
+        y = claripy.SI(bits=w, stride=t2[1], lower_bound=t2[2], upper_bound=t2[3])
+        gx = sorted(G.gamma(t))
+        other, gother, oname = rng.choice([(claripy.Reverse(x), [G.bswap(v, w) for v in gx], "reverse-of-same"), (x + 1, [(v + 1) & bvsem.mask(w) for v in gx], "same-plus-1"), (y, sorted(G.gamma(t2)), "other"), (claripy.Reverse(y), [G.bswap(v, w) for v in sorted(G.gamma(t2))], "reverse-of-other")])
+        for opn, fn in (("union", claripy.union), ("widen", claripy.widen)):
+            for a_, b_ in ((x, other), (other, x)):
+                try:
+                    obj = be.convert(fn(a_, b_))
+                except Exception as ex_:  # noqa: BLE001
+                    res.count("backend_setop_raised")
+                    res.setadd("backend_setop_raised", f"{opn}:{type(ex_).__name__}:{str(ex_)[:60]}")
+                    continue
+                res.count("judged:backend-setop")
+                res.count("judged:backend-setop:" + oname)
+                miss = [v for v in gx + gother if not c23.in_abs(obj, v)]
+                if miss:
+                    _viol(res, f"backend-{opn}-misses-member-of-an-operand", (t,), c23.describe(obj), other=oname, missing=miss[:6])
     for i in range(spec["n"]):
         w = rng.choice([3, 4, 8, 16, 32, 64])
         t = rand_si(rng, w) if w > 4 else rng.choice(G.all_sis(w, aligned_only=True))
